@@ -23,6 +23,8 @@
 (*           consumed the file itself                                                             *)
 (*   xdeps : earlier targets passed as extra_deps= of a linked target (its link step) or of a    *)
 (*           build_step                                                            *)
+(*   cdeps : earlier targets passed as extra_compile_deps= of a linked target: EVERY object of    *)
+(*           the target depends on them (not its precompiled header)              *)
 (*   hdr   : TRUE for a linked target compiled with includes=[header_file('h2.h')]: every       *)
 (*           object (and the precompiled header) of the target depends on h2.h     *)
 (*   pch   : TRUE for a linked target compiled with pch='pch_<name>.h': bfg9000    *)
@@ -63,7 +65,7 @@ Forward(script, nm) ==
 \* targets a declaration consumes directly.  mode "must": what the step really reads;
 \* mode "may": additionally what the script merely declares (a static library's libs=)
 DirectTargets(script, d, mode) ==
-  TargetsOf(d.srcs) \cup TargetsOf(d.ins) \cup ToSet(d.deps) \cup ToSet(d.xdeps)
+  TargetsOf(d.srcs) \cup TargetsOf(d.ins) \cup ToSet(d.deps) \cup ToSet(d.xdeps) \cup ToSet(d.cdeps)
   \cup (IF d.kind \in {"exe", "shlib"} THEN ToSet(d.libs) \cup UNION { Forward(script, l) : l \in ToSet(d.libs) } ELSE {})
   \cup (IF d.kind = "slib" /\ mode = "may" THEN ToSet(d.libs) ELSE {})
 
@@ -108,6 +110,9 @@ ObjReadsFile(script, o, f) == \/ o[2].f # "" /\ (o[2].f = f \/ f \in Includes(o[
                               \/ f = PchFile(o[1])
                               \/ (f = "h2" /\ Decl(script, o[1]).hdr)
 \* (a linked target's `ins` are generated headers passed as includes=: all its objects depend on them)
+\* (extra_compile_deps is forwarded to the object files, not to the precompiled-header step)
+CDeps(script, o) == IF o = PchObj(o[1]) THEN {} ELSE ToSet(Decl(script, o[1]).cdeps)
 ObjReadsTarget(script, o, x) == \/ (o[2].t # "" /\ x \in Upstream(script, o[2].t, "must"))
                                 \/ \E h \in TargetsOf(Decl(script, o[1]).ins) : x \in Upstream(script, h, "must")
+                                \/ \E c \in CDeps(script, o) : x \in Upstream(script, c, "must")
 =============================================================================
